@@ -1,5 +1,4 @@
-import PortusModel.Lang.Sem
-import PortusModel.Lang.Compile
+import PortusModel.Lang.Fragment
 import PortusModel.Vm.Datapath
 /-!
 # C01 — compiled bytecode computes what the datapath program source says
@@ -11,69 +10,7 @@ far about the compiler against the machine (see the end of the file for what is 
 `_partial`).
 -/
 namespace Portus.C01
-open Portus Portus.Lang Portus.Vm
-
-/-! ## The fragment the statement is made for (decidable hypotheses, DESIGN §5 C01) -/
-
-/-- a pure expression: operators over literals and variables, no assignment, conditional or command -/
-def pureE : Expr → Bool
-  | .atom _ => true
-  | .sexp o l r =>
-    (match o with | .bind | .if | .notIf | .ewma | .def => false | _ => true) && pureE l && pureE r
-  | _ => false
-
-/-- a statement: an assignment of a pure expression, or of a conditional / ewma over pure operands,
-to a name; comments are allowed -/
-def stmtOk : Expr → Bool
-  | .none => true
-  | .sexp .bind (.atom (.name _)) (.sexp .if c v) => pureE c && pureE v
-  | .sexp .bind (.atom (.name _)) (.sexp .notIf c v) => pureE c && pureE v
-  | .sexp .bind (.atom (.name _)) (.sexp .ewma a v) => pureE a && pureE v
-  | .sexp .bind (.atom (.name _)) r => pureE r
-  | _ => false
-
-def Stratified (evs : List Event) : Bool := evs.all fun ev => pureE ev.flag && ev.body.all stmtOk
-
-def lastVal (n : Name) : List (Name × Nat) → Option Nat
-  | [] => none
-  | (m, v) :: rest => (lastVal n rest).orElse fun _ => if m = n then some v else none
-
-/-- declared variables with *literal* initial values (`LiteralInits`), none of them libccp's legacy
-"infinity" sentinel (`NoLegacyInf`), in slot order: report variables first -/
-def varDecls (ds : List Decl) (upd : List (Name × Nat)) : Option (List Sem.VarDecl) :=
-  let one (d : Decl) : Option Sem.VarDecl :=
-    let isRep := "Report.".toList.isPrefixOf d.var
-    let init : Option Nat := match lastVal d.var upd with
-      | some v => some v
-      | none => match d.init with
-        | .num (some n) => some n
-        | .bool (some b) => some (if b then 1 else 0)
-        | _ => none
-    match init with
-    | some n => if n = 0x3fffffff then none else some { name := d.var, isReport := isRep, vol := d.vol, init := Sem.immVal n }
-    | none => none
-  do
-    let rs ← (ds.filter fun d => "Report.".toList.isPrefixOf d.var).mapM one
-    let cs ← (ds.filter fun d => !("Report.".toList.isPrefixOf d.var)).mapM one
-    pure (rs ++ cs)
-
-/-- observation of one invocation as both sides can be compared: settings as the `u32` the datapath
-callbacks receive -/
-inductive IObs where
-  | fault (rc : Int)
-  | done (setCwnd setRate : Option Nat) (report : Option (List Nat))
-deriving Repr, DecidableEq, Inhabited
-
-def ofSem : Sem.InvObs → Option IObs
-  | .fault rc => some (.fault rc)
-  | .done c r rep => some (.done (c.map fun v => v.toUInt32.toNat) (r.map fun v => v.toUInt32.toNat)
-                            (rep.map fun l => l.map (·.toNat)))
-  | .outside => none
-
-def ofVm (o : Vm.Obs) : IObs :=
-  if o.rc < 0 then .fault o.rc
-  else .done (o.setCwnd.map fun v => v.toUInt32.toNat) (o.setRate.map fun v => v.toUInt32.toNat)
-         (o.report.map fun p => p.2.map (·.toNat))
+open Portus Portus.Lang Portus.Vm Portus.Lang.Frag
 
 /-- **`C01.check`**: for a source in the fragment, the observed per-invocation behaviour of the
 datapath (which invocations fault and with which code, cwnd/rate settings, which invocations report
